@@ -6,6 +6,7 @@ use crate::util::*;
 use serde_json::{json, Value};
 
 pub mod dewey;
+pub mod messages;
 pub mod digest;
 pub mod distinfo;
 pub mod names;
@@ -72,6 +73,7 @@ pub fn run(st: &mut State, op: &str, input: &Value) -> Option<Out> {
         "metaname" => Some(pkgdb::metaname(input)),
         "plist" => Some(plist::plist(input)),
         "plistline" => Some(plist::plistline(input)),
+        "errmsg" => Some(messages::errmsg(input)),
         "digest" => Some(digest::digest(input)),
         "algname" => Some(digest::algname(input)),
         "hashvec" => Some(digest::hashvec(input)),
